@@ -17,6 +17,7 @@ import asyncio as aio
 from vfw.prelude import reraise_engine, tracing
 from vfw.cells import Cell
 from vfw import vloop, loader
+from harness import buffer_t as BT
 
 M = loader.asyncio_S()
 LAST_INFO = None
@@ -416,6 +417,10 @@ def cells(prop, tier):
                                 pre=['len(pauses) == %d and all(0 <= p <= 15 for p in pauses) and len(fails) == 1' % npz, pre],
                                 body='H.scen_shutdown(%r, pauses, dur, fails, -1, at)' % sh, tier=tr,
                                 timeout=300 if tr == 'quick' else 3000, family='c07', weight=3))
+    if prop in ('C03', 'C07'):      # foreign-thread part (Mode T), see harness/buffer_t.py
+        for c in BT.cells(prop, tier):
+            c.body = c.body.replace('H.', 'H.BT.')
+            out.append(c)
     tw = {'C03': 'cpc', 'C07': 'cpcpw', 'C08': 'cpcpc'}[prop]
     npz = sum(1 for k in tw if k in 'pag')
     out.append(Cell(name='twin_%s' % prop.lower(), sig='pauses: List[int], dur: int, fails: List[bool]',
@@ -465,6 +470,8 @@ META = {
 
 
 def conformance(prop):
+    if prop in ('C03', 'C07'):
+        BT.conformance(prop)
     # the repository's doctest programs, in virtual time
     R = run_prog('ccccc', [], 0, [False], -1)
     assert [sorted(r['set']) for r in R['inv']] == [[0, 1, 2, 3, 4]] and R['inv'][0]['start'] == 10, R['inv']
